@@ -233,6 +233,11 @@ class Hist:
             self.take_log()
         self.marks.append((tag, len(self.ops), 1, sorted(v[2] for v in self.broken.values())))
         self.ops.append(op)
+        if op[0] == "set_rules_dir":
+            # which rule files has the preference manager located? (tie with the file-location model of C15)
+            missing = sorted(os.path.relpath(f, self.d) for f, s in self.stamp.items() if s == 0 and f.startswith(self.d + os.sep))
+            self.marks.append(("files", len(self.ops), 1, (op[1], missing)))
+            self.ops.append(["v_prefs_files"])
         if op[0] == "set_preference":
             if op[1] == "CheckRuleFiles":
                 self.mode = op[2]
@@ -477,6 +482,51 @@ def tie_items(hists, out):
     return items, kinds
 
 
+def pruned_listing():
+    """the files of a private copy, as component lists relative to its root"""
+    out = []
+    for d, _, files in os.walk(C.RULES):
+        rel = os.path.relpath(d, C.RULES)
+        parts = [] if rel == "." else rel.split(os.sep)
+        keep = (not parts or parts[0] == "Intent" or (parts[0] == "Languages" and len(parts) > 1 and parts[1] in KEEP_LANGS) or
+                (parts[0] == "Braille" and (len(parts) == 1 or parts[1] in KEEP_CODES)))
+        if parts and parts[0] in ("Languages",) and len(parts) == 1:
+            keep = False
+        if not keep:
+            continue
+        for f in sorted(files):
+            out.append(parts + [f])
+    return sorted(out)
+
+
+LOCATED_SLOTS = ["intent", "overview", "navigation", "speech_unicode", "speech_unicode_full", "speech_defs", "speech",
+                 "braille", "braille_unicode", "braille_unicode_full", "braille_defs"]
+
+
+def located_items(hists, out):
+    """after every set_rules_dir that succeeds: (private copy?, files missing from it, the 11 located files) as Coq text"""
+    from .c15 import cpath
+    items = []
+    for (name, h), r in zip(hists, out):
+        res = r.get("res") or []
+        if len(res) != len(h.ops) or any(op[0] == "set_preference" and op[1] in ("Language", "SpeechStyle", "BrailleCode") for op in h.ops):
+            continue
+        for tag, at, cnt, info in h.marks:
+            if tag != "files" or "ok" not in res[at] or "ok" not in res[at - 1]:
+                continue
+            root, missing = info
+            root = os.path.realpath(root) if os.path.isdir(root) else root
+            files = dict(res[at]["ok"])
+            paths = []
+            for s in LOCATED_SLOTS:
+                f = files.get(s, "")
+                rel = os.path.relpath(f, root) if f else ""
+                paths.append(cpath(rel.split(os.sep)) if f and not rel.startswith("..") else cpath(["<outside>"]))
+            private = os.path.realpath(h.d) == root
+            items.append("(%s, [%s], [%s])" % ("true" if private else "false", "; ".join(cpath(m.split(os.sep)) for m in missing) if private else "", "; ".join(paths)))
+    return items
+
+
 def generate(res):
     ok, log = C.build_harness()
     if not ok:
@@ -484,11 +534,17 @@ def generate(res):
     hists = scenarios(res, 0)
     out = execute(hists)
     items, kinds = tie_items(hists, out)
-    body = HEADER + "From MC Require Import Lib.Base Model.CachesFS.\n" \
-        "Definition fault_obs : list (bool * list obs_call * list bool * list (list str * list str)) := " + clist(items) + ".\n"
+    from .c15 import cpath, gen_tree
+    gen_tree()
+    loc = located_items(hists, out)
+    body = HEADER + "From MC Require Import Lib.Base Model.CachesFS Model.FindFile.\n" \
+        "Definition fault_obs : list (bool * list obs_call * list bool * list (list str * list str)) := " + clist(items) + ".\n" \
+        "Definition pruned_files : list path := " + clist([cpath(f) for f in pruned_listing()], per_line=2) + ".\n" \
+        "Definition located_obs : list (bool * list path * list path) := " + clist(loc) + ".\n"
     C.write_if_changed(os.path.join(C.GEN, "C14Obs.v"), body)
     if res is not None:
         res.extra["tie_cases"] = len(items)
+        res.extra["tie_located_files_cases"] = len(loc)
         res.extra["tie_checks_per_cache"] = kinds
     return hists, out
 
@@ -532,7 +588,7 @@ def problems_of(h, results, clean):
     base = None
     have_dir = have_expr = False
     for tag, at, cnt, info in h.marks:
-        if tag == "log":
+        if tag in ("log", "files"):
             continue
         if tag == "base":
             base = [norm(x) for x in results[at:at + cnt]]
@@ -542,7 +598,7 @@ def problems_of(h, results, clean):
                 have_dir = "ok" in r
             if op == "set_mathml" and "ok" in r:
                 have_expr = True
-            if "err" not in r or op.startswith("h_"):
+            if "err" not in r or op.startswith("h_") or op.startswith("v_"):
                 continue
             # consequences of an earlier reported failure are not judged: no rules directory / no expression yet
             if op != "set_rules_dir" and (not have_dir or (op != "set_mathml" and op != "set_preference" and not have_expr)):
